@@ -155,9 +155,15 @@ class SimPeripherals:
         'memory_poke', 'memory_bsave', 'memory_bload', 'fs_kill',
     )
 
-    def __init__(self, script, plan, sim):
+    def __init__(self, script, plan, sim, kind='sim'):
         self._script = script
         self._sim = sim
+        self._kind = kind
+        self._real = None
+        if kind == 'dumb':
+            # the repository's real dumb-terminal peripherals over simulated
+            # stdio (builtins.input / sys.stdout are owned by the simulator)
+            self._real = qb()['machine_mod'].DumbPeripheralsImpl()
         self.history = []
         self.ncalls = 0
         self.clock = float(script.get('clock0', 0.0))
@@ -220,7 +226,30 @@ class SimPeripherals:
             if f['kind'] == 'F5b':
                 self._fire('F5b')
                 self._sim.deliver_interrupt()
+        if self._real is not None and name not in ('time_get_time',):
+            return self._call_real(name, args)
         return getattr(self, '_do_' + name, self._do_nothing)(*args)
+
+    def _call_real(self, name, args):
+        import builtins
+        saved = builtins.input
+        builtins.input = self._stdin_readline
+        try:
+            return getattr(self._real, name)(*args)
+        finally:
+            builtins.input = saved
+
+    def _stdin_readline(self, prompt=''):
+        """What input() does on the simulated stdin."""
+        self._n_input += 1
+        f = self._by_input.get(self._n_input)
+        lines = self._script.get('input_lines') or []
+        if f is not None:
+            self._fire('F4')
+            raise EOFError
+        if self._n_input > len(lines):
+            raise EOFError
+        return lines[self._n_input - 1]
 
     # -- scripted behaviours -------------------------------------------------
 
@@ -295,7 +324,8 @@ class Sim:
     scheduler-owned tick."""
 
     def __init__(self, mi, script=None, plan=(), budget=400000,
-                 signal_mode='call', fresh_module=False, record_io=False):
+                 signal_mode='call', fresh_module=False, record_io=False,
+                 impl_kind='sim'):
         q = qb()
         self.mi = mi
         self.plan = list(plan)
@@ -314,7 +344,7 @@ class Sim:
             if f['kind'] == 'F5a':
                 self.irq_ticks[f['tick']] = f
         self.irq_delivered_at = None
-        self.impl = SimPeripherals(self.script, self.plan, self)
+        self.impl = SimPeripherals(self.script, self.plan, self, kind=impl_kind)
         self.module = mi.fresh_module() if fresh_module else mi.module
         with contextlib.redirect_stdout(self.stdout):
             self.machine = q['QvmMachine'](self.module, impl=self.impl)
